@@ -155,6 +155,54 @@ theorem no_leak (st : AState) (o s' : Nat) (c : List Nat) (x : Nat) (hx : x ≠ 
       · exact swap_view _ (checkWritable_store st s) (checkWritable_data st s)
       · exact checkWritable_view st s x
 
+/-- a refusal is never caused by a stale registration: in every reachable state a live object is registered under a
+    storage identity only if it uses that storage now (reused identities with dead entries included) -/
+theorem no_live_stale_registration (ops : List AOp) (s o : Nat) :
+    let st := AState.init.run ops
+    o ∈ st.reg s → st.alive o = true → st.store o = some s :=
+  fun hm ha => (registry_exact ops).exact s o hm ha
+
+/-- **fresh vectors are writable at once**: an object just created over storage no live object uses — whatever that
+    identity was used for before, whatever is still registered under it — accepts a write -/
+theorem fresh_create_writable (ops : List AOp) (s : Nat) (c c' : List Nat) (s' : Nat) :
+    let st := AState.init.run ops
+    (∀ o, st.store o ≠ some s) →
+    ((st.step (.create s c)).1.step (.write st.next s' c')).2 = false := by
+  intro st hfree
+  have hrun : (st.step (.create s c)).1 = AState.init.run (ops ++ [.create s c]) := by
+    simp [AState.run, List.foldl_append, st]
+  rw [hrun]
+  refine unshared_always_writable (ops ++ [AOp.create s c]) st.next s s' c' ?_ ?_
+  · rw [← hrun]
+    have hst : ∀ (u : AState) (a b : Nat), (u.register a b).store = u.store := by
+      intro u a b; unfold register; split <;> rfl
+    simp [step, hst, setStore]
+  · intro o' hne
+    rw [← hrun]
+    have hst : ∀ (u : AState) (a b : Nat), (u.register a b).store = u.store := by
+      intro u a b; unfold register; split <;> rfl
+    simp only [step, hst, setStore, setData_store, if_neg hne]
+    exact hfree o'
+
+/-- **former sharers become writable when the partner is collected**: if exactly two live objects share a storage and one
+    of them dies, a write through the other is accepted -/
+theorem writable_after_partner_collected (ops : List AOp) (o o' s s' : Nat) (c : List Nat) :
+    let st := AState.init.run ops
+    st.store o = some s → o' ≠ o → (∀ x, x ≠ o → x ≠ o' → st.store x ≠ some s) →
+    ((st.step (.drop o')).1.step (.write o s' c)).2 = false := by
+  intro st ho hne honly
+  have hrun : (st.step (.drop o')).1 = AState.init.run (ops ++ [.drop o']) := by
+    simp [AState.run, List.foldl_append, st]
+  rw [hrun]
+  refine unshared_always_writable (ops ++ [AOp.drop o']) o s s' c ?_ ?_
+  · rw [← hrun]; simp only [step, setStore, if_neg hne.symm]; exact ho
+  · intro x hx
+    rw [← hrun]
+    simp only [step, setStore]
+    split
+    · simp
+    · rename_i hxo'; exact honly x hx hxo'
+
 /-! #### non-vacuity: identity reuse after the double initialisation of a table (the history of defect #18) -/
 
 /-- table object 0 is created over storage 11, re-initialised over storage 12 (storage 11 is freed), then a fresh
